@@ -50,14 +50,12 @@ def bool_facts(cond, truth):
     return out
 
 
-def facts_at(b, block, cache={}):
+def facts_at(b, block):
     """Facts that hold whenever `block` is entered: edges (u,v) with v dominating block and v having the single predecessor u."""
-    key = (id(b), "ef")
-    if key not in cache:
-        cache.clear()
-        cache[key] = edge_facts(b)
+    if getattr(b, "_edge_facts", None) is None:
+        b._edge_facts = edge_facts(b)
     res = []
-    for u, v, f in cache[key]:
+    for u, v, f in b._edge_facts:
         if b.pred(v) == [u] and b.dominates(v, block):
             res.append(f)
     return res
